@@ -29,9 +29,9 @@ ASSUMPTIONS = [
     "the harness plug-ins are valid puresnmp privacy plug-ins (IDENTIFIER, IANA_ID, encrypt_data, decrypt_data); decrypt inverts encrypt",
     "engine boots / time handed to the plug-in are the discovered ones (timeliness over the client's life is C12)",
 ]
-_REQUIRED_BASE = {"marker_set": 0.15, "two_blocks": 0.25, "shared_user_engine": 0.10, "verifblock": 0.20}
+_REQUIRED_BASE = {"marker_set": 0.09, "two_blocks": 0.15, "shared_user_engine": 0.06, "verifblock": 0.12}   # (60 % of the fractions first required: room for seed-to-seed variation)
 # generator health of the newer case families (quick tier: the thorough tier dilutes them with enumerated units)
-_REQUIRED_QUICK = {'salt_shapes': 0.15, 'plugin_installed_late': 0.02}
+_REQUIRED_QUICK = {"salt_shapes": 0.09, "plugin_installed_late": 0.012}   # (60 % of the fractions first required: room for seed-to-seed variation)
 
 
 def REQUIRED_CLASSES(tier):
